@@ -113,7 +113,10 @@ Proof. exact iter_none_spec. Qed.
 Print Assumptions C04_iter.
 
 (** dropping the last handle of an UNFINISHED bar: the calls of finish_using_style, the same
-    final state, then the slot bookkeeping and the handle is gone *)
+    final state, then the slot bookkeeping and the handle is gone.  LEVEL: call sequence and model
+    state (an equation between two [step] results, valid for every target, height and fault
+    oracle) - it says nothing about the screen by itself; the screen-level consequence for the
+    standalone bar is the ODrop case of C04_final_screen_standalone (under Fits). *)
 Theorem C04_drop_unfinished : forall W H fails s b now,
   finished (get_bar s b) = false ->
   let '(s1, e1, _) := step W H fails s now (OFinishUsingStyle b) in
